@@ -37,6 +37,9 @@ func (w *vpWorld) restart() error {
 		crdCache:    &vpCrdCache{w: w},
 	}
 	p.ipam = floatingip.NewCrdIPAM(&floatingip.VfClient{Store: w.store}, nil)
+	if w.provider != nil {
+		p.cloudProvider = w.provider
+	}
 	w.plugin = p
 	w.syncListers()
 	return w.configure()
